@@ -98,6 +98,22 @@ def _bind_nested(parent, elements):
             element._instance = _NestedOwner(parent, element)
 
 
+def _copied_on_its_own(wrapper, memo):
+    """
+    A field's collection wrapper is deep-copied on its own (copy.deepcopy(x.arr)), not as part of its owner:
+    the owner is not being copied, so a wrapper bound to it would write every later mutation of the copy
+    into the ORIGINAL owner's field.
+    """
+    owner = getattr(wrapper, "_instance", None)
+    name = getattr(getattr(wrapper, "_field_definition", None), "_name", None)
+    return (
+        isinstance(owner, Structure)
+        and type(owner) is not Structure  # not the scratch owner used while a parent collection is validated
+        and id(owner) not in memo
+        and owner.__dict__.get(name) is wrapper
+    )
+
+
 class _ListStruct(list, ImmutableMixin, _IteratorProxyMixin):
     """
     This is a useful wrapper for the content of list in an Array field.
@@ -233,8 +249,15 @@ class _ListStruct(list, ImmutableMixin, _IteratorProxyMixin):
             "the_values": self[:],
         }
 
+    def __copy__(self):
+        # the default reconstruction (copyreg) appends the items through the overridden append, which
+        # re-assigns the ORIGINAL owner's field: copy.copy(x.arr) doubled x.arr
+        return self.copy()
+
     def __deepcopy__(self, memo):
         vals = [deepcopy(v) for v in self[:]]
+        if _copied_on_its_own(self, memo):
+            return vals
         instance_id = id(self._instance)
         return _ListStruct(
             array=deepcopy(self._field_definition),
@@ -426,6 +449,8 @@ class _DequeStruct(deque, ImmutableMixin, _IteratorProxyMixin):
 
     def __deepcopy__(self, memo):
         vals = [deepcopy(v) for v in self.copy()]
+        if _copied_on_its_own(self, memo):
+            return deque(vals, self.maxlen)
         instance_id = id(self._instance)
         return _DequeStruct(
             deq=deepcopy(self._field_definition),
@@ -485,8 +510,15 @@ class _DictStruct(dict, ImmutableMixin):
         copied = super().copy()
         return deepcopy(copied) if self._is_immutable() else copied
 
+    def __copy__(self):
+        # the default reconstruction (copyreg) stores the items through the overridden __setitem__, which
+        # re-assigns the ORIGINAL owner's field, and leaves the copy bound to that owner
+        return self.copy()
+
     def __deepcopy__(self, memo):
         new_dict = {deepcopy(k): deepcopy(v) for k, v in self.items()}
+        if _copied_on_its_own(self, memo):
+            return new_dict
         instance_id = id(self._instance)
         return _DictStruct(
             the_map=self._field_definition,
